@@ -334,6 +334,124 @@ def rule_no_swallow(ctx, rep):
         raise AnalysisError("broad handlers of the libcst pipeline not found (anchor vanished)")
 
 
+def metadata_consumers(ctx) -> dict[str, set[str]]:
+    """function -> parameters whose value ends up as the node of a `get_metadata(provider, node)` lookup (directly or through `self.` calls);
+    least fixed point over the methods of all classes"""
+    cached = getattr(ctx, "_metadata_consumers", None)
+    if cached is not None:
+        return cached
+    from ..model import bind_args
+
+    meta: dict[str, set[str]] = {}
+    funcs = [f for f in ctx.prog.live_functions() if f.cls is not None]
+    changed = True
+    while changed:
+        changed = False
+        for f in funcs:
+            params = set(f.params())
+            r = ctx.resolver(f)
+            for x in walk_no_nested(f.node):
+                if not isinstance(x, ast.Call):
+                    continue
+                if last_attr(x.func) == "get_metadata" and len(x.args) >= 2 and isinstance(x.args[1], ast.Name) and x.args[1].id in params:
+                    if x.args[1].id not in meta.setdefault(f.qname, set()):
+                        meta[f.qname].add(x.args[1].id)
+                        changed = True
+                if isinstance(x.func, ast.Attribute) and isinstance(x.func.value, ast.Name) and x.func.value.id == "self":
+                    try:
+                        ts = [t for t in r.resolve_call(x) if isinstance(t, FuncInfo)]
+                    except Exception:
+                        ts = []
+                    for t in ts:
+                        if t.qname in meta:
+                            b = bind_args(x, t, True)
+                            for p_ in list(meta[t.qname]):
+                                a = b.get(p_)
+                                if isinstance(a, ast.Name) and a.id in params and a.id not in meta.setdefault(f.qname, set()):
+                                    meta[f.qname].add(a.id)
+                                    changed = True
+    ctx._metadata_consumers = meta
+    return meta
+
+
+FRESH_FUNCS = {"parse_expression", "parse_statement", "parse_module", "parse_template_expression", "parse_template_statement", "parse_template_module"}
+
+
+def fresh_node(ctx, fn: FuncInfo, e: ast.expr, depth: int = 3) -> ast.AST | None:
+    """If `e` denotes a node built by this code (constructor, with_changes, parse_*), return the constructing expression: such a node
+    is not part of the tree the metadata was computed for."""
+    if depth <= 0 or e is None:
+        return None
+    if isinstance(e, ast.Call):
+        la = last_attr(e.func) or ""
+        f = unparse(e.func)
+        if la in ("with_changes", "deep_clone", "with_deep_changes") or la in FRESH_FUNCS:
+            return e
+        if (f.startswith(("cst.", "libcst.")) and la[:1].isupper()):
+            return e
+        if la == "ensure_type" and e.args:
+            return fresh_node(ctx, fn, e.args[0], depth)
+        if isinstance(e.func, ast.Name) and la[:1].isupper() and (ctx.prog.resolve_dotted(fn.module, la) or "").startswith("libcst."):
+            return e
+        if isinstance(e.func, ast.Attribute) and isinstance(e.func.value, ast.Name) and e.func.value.id == "self":
+            try:
+                ts = [t for t in ctx.resolver(fn).resolve_call(e) if isinstance(t, FuncInfo)]
+            except Exception:
+                ts = []
+            if len(ts) == 1:
+                rets = [r_.value for r_ in walk_no_nested(ts[0].node) if isinstance(r_, ast.Return) and r_.value is not None]
+                fr = [fresh_node(ctx, ts[0], v, depth - 1) for v in rets]
+                if rets and all(x is not None for x in fr):
+                    return e
+        return None
+    if isinstance(e, ast.Name) and e.id not in fn.params():
+        sa = ctx.resolver(fn).single_assignments()
+        if e.id in sa:
+            return fresh_node(ctx, fn, sa[e.id], depth - 1)
+    return None
+
+
+def rule_metadata_original(ctx, rep, rule_id="R-METADATA-ORIGINAL"):
+    rep.rule(
+        rule_id,
+        "metadata (scopes, positions, parents) exists only for nodes of the parsed tree: at every call of a function whose parameter ends up in a "
+        "`get_metadata(provider, node)` lookup, the argument is not a node this code has just built (constructor, with_changes, parse_*, a helper "
+        "returning one).  For a fresh node the lookups answer with their defaults (`no names in use`, no position, no parent): "
+        "generate_available_name then hands out a name that is taken - `(p := Path(...)) for p in PAGES` does not compile",
+        min_instances=100,
+    )
+    from ..model import bind_args
+
+    meta = metadata_consumers(ctx)
+    n = 0
+    for fn in ctx.prog.live_functions():
+        if fn.cls is None:
+            continue
+        r = ctx.resolver(fn)
+        for c in walk_no_nested(fn.node):
+            if not isinstance(c, ast.Call):
+                continue
+            pairs: list[ast.expr] = []
+            if last_attr(c.func) == "get_metadata" and len(c.args) >= 2:
+                pairs.append(c.args[1])
+            elif isinstance(c.func, ast.Attribute) and isinstance(c.func.value, ast.Name) and c.func.value.id == "self":
+                try:
+                    ts = [t for t in r.resolve_call(c) if isinstance(t, FuncInfo) and t.qname in meta]
+                except Exception:
+                    ts = []
+                for t in ts:
+                    b = bind_args(c, t, True)
+                    pairs += [b[p_] for p_ in meta[t.qname] if p_ in b]
+            for a in pairs:
+                n += 1
+                fr = fresh_node(ctx, fn, a)
+                rep.check(rule_id, fn.qname, fn.loc(c), fr is None, f"{last_attr(c.func)}({unparse(a)[:30]})",
+                          f"`{unparse(c)[:70]}` looks up metadata for `{unparse(fr)[:50] if fr is not None else ''}`, a node built here and unknown to the metadata wrapper: "
+                          "the lookup silently answers with its default")
+    if n < 100:
+        raise AnalysisError(f"only {n} metadata lookups found")
+
+
 def check(ctx, rep):
     rep.explanation = (
         "Detector and transformer describe the same construct twice (semgrep YAML and libcst code). The rule reader and the effect "
@@ -355,6 +473,7 @@ def check(ctx, rep):
 
     rule_no_dup_keyword(ctx, rep)
     rule_scan_targets(ctx, rep)
+    rule_metadata_original(ctx, rep)
     from .c06 import rule_rule_keyed
 
     rule_rule_keyed(ctx, rep)
